@@ -627,7 +627,10 @@ class IdxMax(IdxMin):
 
 class ValueCounts(SingleAggregation):
     groupby_chunk = staticmethod(_value_counts)
-    groupby_aggregate = staticmethod(_value_counts_aggregate)
+
+    @classmethod
+    def aggregate(cls, inputs, sort=False, **kwargs):
+        return _value_counts_aggregate(_concat(inputs), sort=sort)
 
 
 class Unique(SingleAggregation):
